@@ -368,6 +368,25 @@ Theorem c16_linked_while_referenced : forall h1 topic fids h2 f,
 Proof. exact linked_msg. Qed.
 Print Assumptions c16_linked_while_referenced.
 
+(* the same, end to end from the URLs of the {pub} request (Pure/Url.v and the store slice
+   together): under the same scope, a listed URL that names a completed upload keeps its link row,
+   its record and its bytes, and Download of that very URL keeps serving that upload, for as long
+   as the message exists - whatever else happens *)
+Theorem c16_listed_url_kept_downloadable : forall h1 serve topic urls h2 url,
+  let s1 := run h1 in
+  let fids := resolve serve urls in
+  memN topic (topics s1) = true ->
+  forallb (fun x => memN x (file_ids s1)) fids = true ->
+  In url urls -> is_done (get_id_from_url serve url) (files s1) = true ->
+  let mid := next_mid s1 in
+  let s2 := run (h1 ++ OPublish topic fids :: h2) in
+  target_live s2 (TMsg mid) = true ->
+  let f := get_id_from_url serve url in
+  In (f, TMsg mid) (links s2) /\ In f (file_ids s2) /\ In f (disk s2) /\
+  exists g, download s2 serve url = Some g /\ f_id g = f /\ f_done g = true.
+Proof. exact listed_url_linked. Qed.
+Print Assumptions c16_listed_url_kept_downloadable.
+
 (* avatars: the first resolvable id of the list, until the topic / user is deleted or its
    avatar is replaced *)
 Theorem c16_topic_avatar_linked : forall h1 t f rest h2,
